@@ -28,6 +28,7 @@ import (
 
 	"github.com/aquilax/hranoprovod-cli/cmd/hranoprovod-cli/v3/internal/balance"
 	"github.com/aquilax/hranoprovod-cli/cmd/hranoprovod-cli/v3/internal/csv"
+	"github.com/aquilax/hranoprovod-cli/cmd/hranoprovod-cli/v3/internal/gen"
 	"github.com/aquilax/hranoprovod-cli/cmd/hranoprovod-cli/v3/internal/lint"
 	"github.com/aquilax/hranoprovod-cli/cmd/hranoprovod-cli/v3/internal/options"
 	"github.com/aquilax/hranoprovod-cli/cmd/hranoprovod-cli/v3/internal/print"
@@ -269,6 +270,7 @@ func buildApp(files map[string][]byte, readFail map[string]int, sink io.Writer) 
 		stats.NewStatsCommand(cu, stats.Stats),
 		summary.NewSummaryCommand(cu, summary.Summary),
 		print.NewPrintCommand(cu, print.Print),
+		gen.VerifNewGenCommand(cu, a),
 	}
 	a.Writer = io.Discard
 	a.ErrWriter = io.Discard
